@@ -1,12 +1,36 @@
 /-
-  Proofs/C03Run.lean — helper lemmas for the C03 property files.
+  Proofs/C03Run.lean — helper lemmas for Props/C03_Run.lean (outcomes of atomic steps).
 -/
 import BitstringModel.Model.C03
 import BitstringModel.Proofs.C03
 import Mathlib.Tactic.Ring
 import Mathlib.Tactic.Linarith
 import Mathlib.Data.List.Basic
-namespace BM.C03
-open BM
+namespace BM.C03.Run
+open BM BM.C03
 
-end BM.C03
+theorem atomic_err (l : Bits) (r : Except Err Bits) (e : Err) (h : (atomic l r).ret = .error e) :
+    (atomic l r).bits = l := by
+  cases r with
+  | ok b => simp [atomic] at h
+  | error e' => rfl
+
+theorem atomicRet_err (l : Bits) (r : Except Err (Nat × Bits)) (e : Err) (h : (atomicRet l r).ret = .error e) :
+    (atomicRet l r).bits = l := by
+  cases r with
+  | ok b => obtain ⟨k, b⟩ := b; simp [atomicRet] at h
+  | error e' => rfl
+
+theorem atomic_length (l : Bits) (x : Except Err Bits) (h : ∀ r, x = .ok r → r.length = l.length) :
+    (atomic l x).bits.length = l.length := by
+  cases x with
+  | ok b => exact h b rfl
+  | error e' => rfl
+
+theorem atomicRet_length (l : Bits) (x : Except Err (Nat × Bits)) (h : ∀ k r, x = .ok (k, r) → r.length = l.length) :
+    (atomicRet l x).bits.length = l.length := by
+  cases x with
+  | ok b => obtain ⟨k, b⟩ := b; exact h k b rfl
+  | error e' => rfl
+
+end BM.C03.Run
